@@ -131,16 +131,25 @@ _LITERAL = None
 
 
 def month_literal():
-    """`month_names` as WRITTEN in the source file of the tree under test."""
+    """`month_names` as the tree under test defines it: the literal WRITTEN in the source file when it is one, otherwise (the
+    table may be built by code) its value in a freshly started interpreter that has done nothing but import the module."""
     global _LITERAL
     if _LITERAL is None:
         path = os.path.join(REPO, 'pybtex', 'database', 'input', 'bibtex.py')
-        tree = ast.parse(open(path, encoding='utf-8').read())
-        for node in tree.body:
-            if isinstance(node, ast.Assign) and any(getattr(t, 'id', None) == 'month_names' for t in node.targets):
-                _LITERAL = ast.literal_eval(node.value)
-        if _LITERAL is None:
-            raise RuntimeError('month_names literal not found')
+        try:
+            tree = ast.parse(open(path, encoding='utf-8').read())
+            for node in tree.body:
+                if isinstance(node, ast.Assign) and any(getattr(t, 'id', None) == 'month_names' for t in node.targets):
+                    _LITERAL = ast.literal_eval(node.value)
+        except (ValueError, SyntaxError):
+            _LITERAL = None
+        if not isinstance(_LITERAL, dict):
+            code = ('import sys, json; sys.path.insert(0, %r); import compat; from pybtex.database.input import bibtex as B; '
+                    'print(json.dumps(list(B.month_names.items())))' % HARNESS_DIR)
+            r = subprocess.run([PY, '-c', code], stdout=subprocess.PIPE, stderr=subprocess.PIPE, text=True, env=dict(os.environ), timeout=120)
+            if r.returncode != 0:
+                raise RuntimeError('month_names of a fresh interpreter cannot be read: %s' % r.stderr[-300:])
+            _LITERAL = dict(json.loads(r.stdout.strip().split('\n')[-1]))
     return _LITERAL
 
 
@@ -225,6 +234,32 @@ def world_view(brief=False):
         w['split_keys'] = [k[0] for k in sc['history']] if sc else None
         w['fmt_keys'] = [list(k) for k in fc['history']] if fc else None
     return w
+
+
+CACHE_KEYS = ('fmt_keys', 'fmt_size', 'split_keys', 'split_size')
+
+
+def reconcile(case, view, mo):
+    """The contents of the memo caches are read through the closure cells of `memoize` (names `memory` / `history`): private
+    state.  When the tree under test does not expose them under these names (a rename, another container) they are not
+    observable: drop them from both sides (the caches are still judged through the RESULTS of the calls: memo_transparent,
+    repeat_identical, history_independent)."""
+    if not isinstance(view, list) or not isinstance(mo, list) or len(view) != len(mo):
+        return view, mo
+    v2, m2 = [], []
+    for a, b in zip(view, mo):
+        if isinstance(a, dict) and isinstance(b, dict):
+            w = a.get('world')
+            if isinstance(w, dict) and isinstance(b.get('world'), dict) and w.get('fmt_keys') is None and w.get('split_keys') is None:
+                a = dict(a, world={k: v for k, v in w.items() if k not in CACHE_KEYS})
+                b = dict(b, world={k: v for k, v in b['world'].items() if k not in CACHE_KEYS})
+            hidden = [k for k in ('memory', 'history', 'evicted') if k in b and a.get(k) is None]
+            if hidden and all(a.get(k) is None for k in ('memory', 'history')):
+                a = {k: v for k, v in a.items() if k not in ('memory', 'history', 'evicted')}
+                b = {k: v for k, v in b.items() if k not in ('memory', 'history', 'evicted')}
+        v2.append(a)
+        m2.append(b)
+    return v2, m2
 
 
 def cache_problems():
